@@ -1004,6 +1004,14 @@ func runSkipRandLevel(c *Ctx, r *RuleRun) {
 				return cm.Y != nil && cm.Op == "<" && cm.X == ssa.Value(ph) && isLoadOfField(cm.Y, maxF)
 			})
 			r.Check(okB, fn, "level grows only below maxLevel", p.Pos(instrPos(bo)), "level++ dominated by level < maxLevel", "the drawn level is incremented without a dominating `level < maxLevel` (e.g. the cap is tested after the increment): with maxLevel = 1 a tower taller than the list is built and Set indexes out of range")
+			// the count starts at 1: a list with maxLevel = 1 has room for towers of height 1 only
+			for i, e := range ph.Edges {
+				if ph.Block().Dominates(ph.Block().Preds[i]) {
+					continue
+				}
+				k0, isK0 := constInt(e)
+				r.Check(isK0 && k0 == 1, fn, "level starts at 1", p.Pos(instrPos(bo)), "the smallest tower fits every maxLevel >= 1", "the drawn level does not start at 1: with maxLevel = 1 (or a start of 0) the tower does not fit the list - Set indexes out of range or links nothing")
+			}
 		})
 	}
 	if n == 0 {
